@@ -8,8 +8,10 @@ PROP = dict(
     groups=['effects', 'tables'],
     obligations=[
         # shared mutable state: effect programs regenerated from the AST, analysis proved sound
-        obl('C06.effects.accepted', E, ['EPV.C06.all_accepted', 'EPV.C06.programs_names', 'EPV.C06.programs_read',
-                                        'EPV.C06.entry_points_clean'], models=['Effects'], tie=o_c06.effects_tie),
+        obl('C06.effects.accepted', E, ['EPV.C06.all_accepted', 'EPV.C06.programs_names', 'EPV.C06.programs_classes',
+                                        'EPV.C06.programs_read', 'EPV.C06.entry_points_clean'], models=['Effects'],
+            tie=o_c06.effects_tie, oracle=o_c06.two_instances),
+        obl('C06.effects.finding', E, ['EPV.C06.nohblackbox_shared_solver_finding'], models=['Effects'], finding=True),
         obl('C06.effects.soundness', 'EPV.Props.C06.Soundness', ['EPV.C06.da_sound', 'EPV.C06.accepted_clean']),
         obl('C06.effects.noninterference', E, ['EPV.C06.run_agree', 'EPV.C06.clean_run_store_independent',
                                                'EPV.C06.history_independent']),
